@@ -289,3 +289,17 @@ def op_key(op) -> str:
     from .core import jdump
 
     return jdump(op)
+
+
+PROTOCOL_OPS = ("pickle", "copy", "deepcopy")
+
+
+def same_outcome(op, a, b) -> bool:
+    """Outcome equality as C14/C15 demand it.  For the generic Python protocols (copy, deepcopy, pickle) applied to
+    library objects only a *successful* result has to be the same; when the protocol fails in both executions, which
+    exception the interpreter's copy/pickle machinery ends up raising depends on private attributes the object may
+    have gained (caches) and is C16's business (copy/pickle semantics), not a library call whose outcome C14/C15
+    speak about."""
+    if a == b:
+        return True
+    return op[0] in PROTOCOL_OPS and a[:1] == ["exc"] and b[:1] == ["exc"]
